@@ -294,6 +294,39 @@ class Impl:
             out.append([k, idx])
         return out
 
+    def pipeline(self, raw: list) -> list | None | str:
+        """whole generator (generate_client) on a document whose component schemas are all referenced by operations;
+        observation = (module stem, class, position of the schema whose marker property the class has), by ast"""
+        import ast
+
+        from pipeline import generate
+        schemas = {n: {"type": "object", "properties": {f"p{i}": {"type": "string"}}} for i, n in enumerate(raw)}
+        paths = {f"/r{j}": {"get": {"operationId": f"g{j}", "responses": {"200": {"description": "ok", "content": {
+            "application/json": {"schema": {"$ref": "#/components/schemas/" + n}}}}}}} for j, n in enumerate(raw)}
+        g = generate({"openapi": "3.0.3", "info": {"title": "T", "version": "1"}, "paths": paths,
+                      "components": {"schemas": schemas}})
+        try:
+            if not g.ok:
+                return None if (g.error or "").startswith("RuntimeError") else f"ERR {g.error}"
+            out = []
+            for f in sorted((g.pkg_dir / "models").glob("*.py")):
+                if f.name == "__init__.py":
+                    continue
+                try:
+                    tree = ast.parse(f.read_text())
+                except SyntaxError as e:
+                    return f"SYNTAX {f.name}: {e.msg}"
+                classes = [n for n in tree.body if isinstance(n, ast.ClassDef)]
+                if len(classes) != 1:
+                    return f"SHAPE {f.name}: {len(classes)} classes"
+                marks = [b.target.id for b in classes[0].body
+                         if isinstance(b, ast.AnnAssign) and isinstance(b.target, ast.Name)]
+                idx = int(marks[0][1:]) if len(marks) == 1 and marks[0][1:].isdigit() else 10 ** 6
+                out.append([f.stem, classes[0].name, idx])
+            return out
+        finally:
+            g.cleanup()
+
     def models(self, raw: list) -> dict:
         d = tempfile.mkdtemp(dir=self.scratch)
         try:
@@ -419,6 +452,18 @@ def run_case(impl: Impl, kind: str, inp: Any) -> dict:
             if held != list(range(len(inp))):
                 lost = [inp[i] for i in range(len(inp)) if i not in held]
                 fails.append(f"component schemas: {len(inp)} declared, {len(obs)} kept; dropped or merged: {lost}")
+        return {"input": {"kind": kind, "arg": inp}, "obs": obs, "oracle_fail": fails}
+    if kind == "pipeline":
+        obs = impl.pipeline(inp)
+        fails = []
+        if obs is None or isinstance(obs, str):
+            fails.append(f"whole pipeline: generation failed or produced unparsable models ({obs or 'RuntimeError'})")
+        else:
+            fails += oracle_namespace("generated model classes", len(obs), [c for _, c, _ in obs])
+            fails += oracle_namespace("generated model modules", len(obs), [m for m, _, _ in obs])
+            lost = [inp[i] for i in range(len(inp)) if i not in {k for _, _, k in obs}]
+            if lost:
+                fails.append(f"whole pipeline: no generated model has the content of schema(s) {lost} (dropped or merged)")
         return {"input": {"kind": kind, "arg": inp}, "obs": obs, "oracle_fail": fails}
     if kind == "models":
         o = impl.models(inp)
@@ -568,6 +613,16 @@ def _main(chk: Check, impl: Impl, replay: dict | None) -> int:
             sch_inputs.append(names)
     sch_cases = [run_case(impl, "schemas", x) for x in sch_inputs]
 
+    pipe_inputs = [c["input"]["arg"] for c in corpus if c["input"]["kind"] == "pipeline"]
+    ppool2 = ["audit-entry", "audit_entry", "AuditEntry", "Pet", "pet", "PET", "foo_bar", "FooBar", "fooBar", "user_v2",
+              "UserV2", "type", "Type_", "Type2", "list", "List", "1st", "_1st", "a_b", "Ab", "Pet2", "pet_2", "$", "x"]
+    for names in ([list(t) for t in itertools.permutations(ppool2[:16], 2)
+                   if impl.NS.sanitize_class_name(t[0]) == impl.NS.sanitize_class_name(t[1]) or rng.random() < 0.15]
+                  + [[rng.choice(ppool2) for _ in range(rng.randint(2, 5))] for _ in range(150 * scale)]):
+        names = list(dict.fromkeys(names))
+        pipe_inputs.append(names)
+    pipe_cases = [run_case(impl, "pipeline", x) for x in pipe_inputs]
+
     streams = [
         ("fields", field_cases, "list (str * bool) * list (str * str)", "run_fields",
          lambda c: f"({clist(cpair(cstr(k), cbool(q)) for k, q in c['input']['arg'])}, {c_pairs(c['obs'])})",
@@ -586,6 +641,12 @@ def _main(chk: Check, impl: Impl, replay: dict | None) -> int:
          lambda c: f"({c_strs(c['input']['arg'])}, "
                    f"{copt(c['obs'], lambda l: clist(cpair(cstr(k), str(i) + '%nat') for k, i in l))})",
          {1: "F20k", 2: "F20m"}, "Corr.C20.run_schemas: build_keys = keys of build_schemas(...).parsed_schemas"),
+        ("pipeline", pipe_cases, "list str * option (list ((str * str) * nat))", "run_pipeline",
+         lambda c: f"({c_strs(c['input']['arg'])}, "
+                   + copt(c['obs'] if not isinstance(c['obs'], str) else None,
+                          lambda l: clist(f"(({cstr(m)}, {cstr(k)}), {i}%nat)" for m, k, i in l)) + ")",
+         {1: "F20k", 2: "F20m", 3: "F20a"},
+         "Corr.C20.run_pipeline: pipeline_models = model modules/classes written by generate_client"),
         ("models", mod_cases, "list str * list (str * str)", "run_models",
          lambda c: f"({c_strs(c['input']['arg'])}, {c_pairs(c['obs'])})",
          {1: "F20a"}, "Corr.C20.run_models: dedup_models = ModelsEmitter generation_name / final_module_stem"),
